@@ -464,7 +464,7 @@ def entropy(row):
     return -sum(p * math.log(p) for p in row if p > 0)
 
 
-def check_cond_row(row, dd, others, perplexity, feasible=True, extra_mass=0.0):
+def check_cond_row(row, dd, others, perplexity, feasible=True, extra_mass=0.0, dscale=0.0):
     """spec of one conditional row over the index set `others` (positions into row/dd).
     returns None or a reason string."""
     vals = [row[j] for j in others]
@@ -488,7 +488,9 @@ def check_cond_row(row, dd, others, perplexity, feasible=True, extra_mass=0.0):
             for j in big:
                 lhs = math.log(row[j]) - math.log(row[j0])
                 rhs = -beta * (dd[j] - dd[j0])
-                if abs(lhs - rhs) > 1e-6 * (1.0 + abs(lhs) + abs(rhs)):
+                # the implementation's squared distances carry a rounding error of a few ulps of dscale
+                # (norms + norms - 2<x,y>; sqrt then square); beta multiplies it
+                if abs(lhs - rhs) > 1e-6 * (1.0 + abs(lhs) + abs(rhs)) + abs(beta) * 1e-13 * dscale:
                     return ("row is not a Gaussian kernel of the squared distances: log(p_%d/p_%d) = %.9g, "
                             "-beta (d_%d - d_%d) = %.9g" % (j, j0, lhs, j, j0, rhs))
     return None
@@ -712,7 +714,8 @@ def check_one(ctx, c, payload, mout, post, i, gb_err, ci):
             if not (row[n] is not None and 0 <= row[n] < min(1e-3, 0.1 / N)):
                 return ("violation", "P[%d,%d] = %r: a sample must not be its own neighbour" % (n, n, row[n]))
             why = check_cond_row(row, dd, [m for m in range(N) if m != n], perp, feasible=found and row[n] < 1e-12,
-                                 extra_mass=row[n])
+                                 extra_mass=row[n],
+                                 dscale=max(dd) + 2 * max(sum(a * a for a in p) for p in X))
             if why:
                 return ("violation", "dense conditional similarities, row %d: %s" % (n, why))
             if found:
@@ -900,7 +903,7 @@ def check_pk(ctx, c, payload, post):
         found, mrow, _ = perp_row_mirror(dd, None, perp)
         # DBL_MIN guard: when every kernel value is in the denormal range the row sums to 1 - DBL_MIN/sum_P < 1
         clean = found and abs(sum(mrow) - 1.0) <= 1e-12
-        why = check_cond_row(vals, dd, list(range(K)), perp, feasible=clean)
+        why = check_cond_row(vals, dd, list(range(K)), perp, feasible=clean, dscale=max(dd) if dd else 0.0)
         if why:
             return ("violation", "Barnes-Hut conditional similarities, row %d (neighbours %s): %s" % (n, cols[:12], why))
         if found:
